@@ -47,6 +47,8 @@ THEOREMS = [
     "JanetModel.Props.C08.writer_wakeup_forwarded",
     "JanetModel.Props.C08.writer_wakeup_accepted",
     "JanetModel.Props.C08.writer_wakeup_counterexample",
+    "JanetModel.Props.C08.got_was_given",
+    "JanetModel.Props.C08.payload_roundtrip",
     "JanetModel.Props.C08.supervisor_push_never_parks",
     "JanetModel.Props.C08.supervisor_events_exactly_once_in_order",
     "JanetModel.Props.C08.thread_args_roundtrip",
@@ -56,6 +58,9 @@ THEOREMS = [
     "JanetModel.Props.C08.thread_returns_after_body_counterexample",
     "JanetModel.Props.C08.refcount_ge_reachers",
     "JanetModel.Props.C08.refcount_freed_after_last_drop",
+    "JanetModel.Props.C08.shared_valid_while_reachable",
+    "JanetModel.Props.C08.shared_released_after_all_dropped",
+    "JanetModel.Props.C08.lock_use_counterexample",
     "JanetModel.Props.C08.refcount_counterexample",
     "JanetModel.Props.C08.refcount_leak_counterexample",
 ]
@@ -65,11 +70,14 @@ CURRENT = [
     "JanetModel.Thread.Current.runqueue_shape",
     "JanetModel.Thread.Current.per_sender_order_current",
     "JanetModel.Thread.Current.exactly_once_resumed_current",
+    "JanetModel.Thread.Current.payload_codec_shape",
     "JanetModel.Thread.Current.supervisor_shape",
     "JanetModel.Thread.Current.thread_plans_agree",
     "JanetModel.Thread.Current.thread_args_roundtrip_current",
     "JanetModel.Thread.Current.thread_returns_after_body_current",
     "JanetModel.Thread.Current.refcount_ge_reachers_current",
+    "JanetModel.Thread.Current.lock_types_shape",
+    "JanetModel.Thread.Current.locks_valid_while_reachable_current",
 ]
 CORPUS = os.path.join(VERIF, "corpus", "C08")
 SAN_ENV = {"ASAN_OPTIONS": "detect_leaks=0:abort_on_error=0:verify_asan_link_order=0", "UBSAN_OPTIONS": "print_stacktrace=1",
@@ -303,6 +311,8 @@ def run(ctx, only_replay=None):
                 rc_runs += 1
                 for op in scn["ops"]:
                     rc_cov[op[0]] += 1
+                for kd in scn["kinds"]:
+                    rc_cov["obj:" + kd] = rc_cov.get("obj:" + kd, 0) + 1
                 for sig, why in bad:
                     if sig in reported:
                         continue
